@@ -6,6 +6,7 @@ package support
 import (
 	"context"
 	"fmt"
+	"math/big"
 	"time"
 
 	"github.com/hashicorp/terraform-plugin-framework/attr"
@@ -125,6 +126,113 @@ func (t DurationValue) String() string  { return t.Value.String() }
 
 // ---- tagged validators / plan modifiers
 
+// ---- types for schema_types overrides: the same payloads as types.String / types.Int64 under other names
+// OvrString / OvrInt: the values a schema_types entry names as `type` (scalar types are emitted as bare
+// expressions, like types.StringType)
+var (
+	OvrString attr.Type = OvrStringType{}
+	OvrInt    attr.Type = OvrIntType{}
+)
+
+type OvrStringType struct{}
+
+func (t OvrStringType) ApplyTerraform5AttributePathStep(step tftypes.AttributePathStep) (interface{}, error) {
+	return nil, fmt.Errorf("cannot apply AttributePathStep %T to %s", step, t.String())
+}
+func (t OvrStringType) String() string { return "OvrStringType" }
+func (t OvrStringType) Equal(o attr.Type) bool {
+	_, ok := o.(OvrStringType)
+	return ok
+}
+func (t OvrStringType) TerraformType(_ context.Context) tftypes.Type { return tftypes.String }
+func (t OvrStringType) ValueFromTerraform(ctx context.Context, in tftypes.Value) (attr.Value, error) {
+	if !in.IsKnown() {
+		return OvrStringValue{Unknown: true}, nil
+	}
+	if in.IsNull() {
+		return OvrStringValue{Null: true}, nil
+	}
+	var s string
+	if err := in.As(&s); err != nil {
+		return nil, err
+	}
+	return OvrStringValue{Value: s}, nil
+}
+
+type OvrStringValue struct {
+	Unknown bool
+	Null    bool
+	Value   string
+}
+
+func (t OvrStringValue) Type(_ context.Context) attr.Type { return OvrStringType{} }
+func (t OvrStringValue) ToTerraformValue(_ context.Context) (tftypes.Value, error) {
+	if t.Null {
+		return tftypes.NewValue(tftypes.String, nil), nil
+	}
+	if t.Unknown {
+		return tftypes.NewValue(tftypes.String, tftypes.UnknownValue), nil
+	}
+	return tftypes.NewValue(tftypes.String, t.Value), nil
+}
+func (t OvrStringValue) Equal(other attr.Value) bool {
+	o, ok := other.(OvrStringValue)
+	return ok && o == t
+}
+func (t OvrStringValue) IsNull() bool    { return t.Null }
+func (t OvrStringValue) IsUnknown() bool { return t.Unknown }
+func (t OvrStringValue) String() string  { return t.Value }
+
+type OvrIntType struct{}
+
+func (t OvrIntType) ApplyTerraform5AttributePathStep(step tftypes.AttributePathStep) (interface{}, error) {
+	return nil, fmt.Errorf("cannot apply AttributePathStep %T to %s", step, t.String())
+}
+func (t OvrIntType) String() string { return "OvrIntType" }
+func (t OvrIntType) Equal(o attr.Type) bool {
+	_, ok := o.(OvrIntType)
+	return ok
+}
+func (t OvrIntType) TerraformType(_ context.Context) tftypes.Type { return tftypes.Number }
+func (t OvrIntType) ValueFromTerraform(ctx context.Context, in tftypes.Value) (attr.Value, error) {
+	if !in.IsKnown() {
+		return OvrIntValue{Unknown: true}, nil
+	}
+	if in.IsNull() {
+		return OvrIntValue{Null: true}, nil
+	}
+	var f big.Float
+	if err := in.As(&f); err != nil {
+		return nil, err
+	}
+	i, _ := f.Int64()
+	return OvrIntValue{Value: i}, nil
+}
+
+type OvrIntValue struct {
+	Unknown bool
+	Null    bool
+	Value   int64
+}
+
+func (t OvrIntValue) Type(_ context.Context) attr.Type { return OvrIntType{} }
+func (t OvrIntValue) ToTerraformValue(_ context.Context) (tftypes.Value, error) {
+	if t.Null {
+		return tftypes.NewValue(tftypes.Number, nil), nil
+	}
+	if t.Unknown {
+		return tftypes.NewValue(tftypes.Number, tftypes.UnknownValue), nil
+	}
+	return tftypes.NewValue(tftypes.Number, new(big.Float).SetInt64(t.Value)), nil
+}
+func (t OvrIntValue) Equal(other attr.Value) bool {
+	o, ok := other.(OvrIntValue)
+	return ok && o == t
+}
+func (t OvrIntValue) IsNull() bool    { return t.Null }
+func (t OvrIntValue) IsUnknown() bool { return t.Unknown }
+func (t OvrIntValue) String() string  { return fmt.Sprint(t.Value) }
+
 type TagValidator struct{ Tag string }
 
 func (v TagValidator) Description(context.Context) string         { return "V" + v.Tag }
@@ -146,4 +254,3 @@ func (v TagPlanModifier) Modify(context.Context, tfsdk.ModifyAttributePlanReques
 func PM1() tfsdk.AttributePlanModifier { return TagPlanModifier{"1"} }
 func PM2() tfsdk.AttributePlanModifier { return TagPlanModifier{"2"} }
 func PM3() tfsdk.AttributePlanModifier { return TagPlanModifier{"3"} }
-
